@@ -43,6 +43,8 @@ def build_case(scen, reactor, log, flushlog=None):
             return AssertionError("fail in %s" % unit)
         if kind == "skip":
             return testtools.TestCase.skipException("skip in %s" % unit)
+        if kind == "ki":
+            return KeyboardInterrupt("ki in %s" % unit)
         return RuntimeError("err in %s" % unit)
 
     def do(unit, case):
@@ -124,7 +126,7 @@ def observe(scen):
     try:
         case.run(res)
     except BaseException as ex:  # noqa
-        raised = repr(ex)
+        raised = type(ex).__name__
     finally:
         sys.stderr = real_stderr
     _, obs_after = _get_global_publisher_and_observers()
@@ -167,8 +169,12 @@ def observe(scen):
 def compare(exp, obs):
     """-> list of failing clauses"""
     bad = []
-    if obs["names"] != ["startTest", "outcome", "stopTest"] or obs["propagated"]:
+    if obs["names"] != ["startTest", "outcome", "stopTest"]:
         bad.append("one-outcome")
+    # nothing but a KeyboardInterrupt raised by user code leaves run(); one raised by setUp / test / tearDown always does
+    allowed_prop = {"no": (None,), "may": (None, "KeyboardInterrupt"), "must": ("KeyboardInterrupt",)}[exp.get("prop", "no")]
+    if obs["propagated"] not in allowed_prop:
+        bad.append("one-outcome" if exp.get("prop", "no") == "no" else "base-exception-propagates")
     if obs["ran"] != exp["ran"]:
         bad.append("sequenced")
     if obs["outcome"] not in exp["allowed"]:
@@ -227,7 +233,7 @@ def run(tier, pid="C14"):
     rep.assume("automatic garbage collection is off while scenarios run and a collection is forced between scenarios: a failed Deferred left by one test and collected during the next would (legitimately) fail that next test")
     rep.assume("which non-success outcome is reported is not fixed by C14 except timeout/interrupt => error")
     rep.assume("a stop request still pending when the test finishes is itself a left-over delayed call (=> error)")
-    cfgs = ["ar_quick.cfg", "ar_user.cfg"] if tier == "quick" else ["ar_quick.cfg", "ar_user.cfg", "ar_exp_t.cfg"]
+    cfgs = ["ar_quick.cfg", "ar_user.cfg", "ar_ki.cfg"] if tier == "quick" else ["ar_quick.cfg", "ar_user.cfg", "ar_ki.cfg", "ar_exp_t.cfg"]
     if tier == "thorough":
         r = tlc.run_tlc("twisted", "MCAsyncRunTest", "ar_thorough.cfg", coverage=True, timeout=3000, workers=8)
         tlc.require_ok(r, "C14 ar_thorough.cfg")
